@@ -14,8 +14,12 @@ def run(c):
         counts = {}
         for i in sorted(set(c["pattern"])):
             counts[d[i]] = c["pattern"].count(i)
+    common = c["common"]
+    if c.get("npkeys"):
+        counts = {numpy.int64(k): v for k, v in counts.items()}
+        common = None if common is None else numpy.int64(common)
     try:
-        ix = iindex.from_array(a, counts=counts, common=c["common"], mapping=mapping)
+        ix = iindex.from_array(a, counts=counts, common=common, mapping=mapping)
         expected = a if mapping is None else (numpy.vectorize(lambda v: mapping[int(v)], otypes=[numpy.int64])(a) if a.size else a)
         mid = expected
         if c["back"] == "mapping":
